@@ -16,6 +16,7 @@ struct Rec { char tag; long long id; char kind; };          // image: tag@0 pad7
 struct Mix { short a; double d; char c; int i; char e; };   // image: a@0 pad6 d@8 c@16 pad3 i@20 e@24 pad7
 struct Opt { char kind; int value; char flag; };            // image: kind@0 pad3 value@4 flag@8 pad3 -- 12 bytes, registers
 struct Samp { int n; long double v[2]; };                   // image: n@0 pad12 v[0]@16 (10 value bytes + 6 padding INSIDE the x87 long double) v[1]@32
+struct Tri { char* text; long long seq; long long tag; };    // NO padding for the application (8+8+8); image: text@0 (4) pad4 seq@8 tag@16
 struct Pair { char tag; long long v; };                     // image: tag@0 pad7 v@8 -- 16 bytes: travels in REGISTERS (SysV x86-64)
 #define sandbox_fields_reflection_c02p_class_Rec(f, g, ...) \
   f(char, tag, FIELD_NORMAL, ##__VA_ARGS__) g() f(long long, id, FIELD_NORMAL, ##__VA_ARGS__) g() f(char, kind, FIELD_NORMAL, ##__VA_ARGS__) g()
@@ -24,8 +25,9 @@ struct Pair { char tag; long long v; };                     // image: tag@0 pad7
     f(int, i, FIELD_NORMAL, ##__VA_ARGS__) g() f(char, e, FIELD_NORMAL, ##__VA_ARGS__) g()
 #define sandbox_fields_reflection_c02p_class_Pair(f, g, ...) f(char, tag, FIELD_NORMAL, ##__VA_ARGS__) g() f(long long, v, FIELD_NORMAL, ##__VA_ARGS__) g()
 #define sandbox_fields_reflection_c02p_class_Samp(f, g, ...) f(int, n, FIELD_NORMAL, ##__VA_ARGS__) g() f(long double[2], v, FIELD_NORMAL, ##__VA_ARGS__) g()
+#define sandbox_fields_reflection_c02p_class_Tri(f, g, ...) f(char*, text, FIELD_NORMAL, ##__VA_ARGS__) g() f(long long, seq, FIELD_NORMAL, ##__VA_ARGS__) g() f(long long, tag, FIELD_NORMAL, ##__VA_ARGS__) g()
 #define sandbox_fields_reflection_c02p_class_Opt(f, g, ...) f(char, kind, FIELD_NORMAL, ##__VA_ARGS__) g() f(int, value, FIELD_NORMAL, ##__VA_ARGS__) g() f(char, flag, FIELD_NORMAL, ##__VA_ARGS__) g()
-#define sandbox_fields_reflection_c02p_allClasses(f, ...) f(Rec, c02p, ##__VA_ARGS__) f(Mix, c02p, ##__VA_ARGS__) f(Pair, c02p, ##__VA_ARGS__) f(Opt, c02p, ##__VA_ARGS__) f(Samp, c02p, ##__VA_ARGS__)
+#define sandbox_fields_reflection_c02p_allClasses(f, ...) f(Rec, c02p, ##__VA_ARGS__) f(Mix, c02p, ##__VA_ARGS__) f(Pair, c02p, ##__VA_ARGS__) f(Opt, c02p, ##__VA_ARGS__) f(Samp, c02p, ##__VA_ARGS__) f(Tri, c02p, ##__VA_ARGS__)
 rlbox_load_structs_from_library(c02p);
 
 // the guest's own declarations of the two structs (ILP32: fixed-width members)
@@ -33,6 +35,8 @@ struct GRec { char tag; int64_t id; char kind; };
 struct GMix { int16_t a; double d; char c; int32_t i; char e; };
 struct GPair { char tag; int64_t v; };
 struct GOpt { char kind; int32_t value; char flag; };
+struct GTri { uint32_t text; int64_t seq; int64_t tag; };
+static_assert(sizeof(GTri) == 24 && sizeof(Tri) == 24);
 struct GSamp { int32_t n; long double v[2]; };
 static_assert(sizeof(GSamp) == 48);
 static_assert(sizeof(GRec) == 24 && sizeof(GMix) == 32 && sizeof(GPair) == 16);
@@ -92,7 +96,8 @@ static void judge(const char* path, const char* sn, const std::vector<std::pair<
     // images of at most 16 bytes travel in registers: their paddings are short, and what shows there is the upper part of an
     // address (the window may then hold as few as pointer bytes 4..7 - the half that is the same for a whole mapping)
     const bool in_registers = g_seen_len <= 16;
-    for (int k = 0; k <= (in_registers ? 4 : 3); k++) { // the window holds pointer bytes k..7
+    // (a 4-byte padding can hold at most half an address: the upper half - bytes 4..7, the same for a whole mapping - counts)
+    for (int k = 0; k <= 4; k++) { // the window holds pointer bytes k..7
       size_t len = 8 - k;
       if (start + len > g_seen_len) continue;
       bool allpad = true;
@@ -179,6 +184,7 @@ int main(int argc, char** argv)
   lib.add("call_ret_mix", reinterpret_cast<void*>(&g_call_ret<GMix>));
   lib.add("take_pair", reinterpret_cast<void*>(&g_take<GPair>));
   lib.add("take_opt", reinterpret_cast<void*>(&g_take<GOpt>));
+  lib.add("take_tri", reinterpret_cast<void*>(&g_take<GTri>));
   lib.add("take_samp", reinterpret_cast<void*>(&g_take<GSamp>));
   lib.add("call_ret_pair", reinterpret_cast<void*>(&g_call_ret<GPair>));
   Wd::sbx sb;
@@ -229,6 +235,17 @@ int main(int argc, char** argv)
         if (mode < 3) judge(mname[mode], "struct{int;long double[2]}", { { 0, 4 }, { 16, 10 }, { 32, 10 } });
         else judge(mname[mode], "long double[2]", { { 0, 10 }, { 16, 10 } });
       }
+    }
+    {
+      // a struct WITHOUT padding in the application's layout whose image has some (the pointer is 4 bytes in the sandbox)
+      tainted<Tri, S> tr;
+      tr.text = nullptr; tr.seq = round; tr.tag = 7;
+      mon::ctx("by-value-struct/invoke-argument | Tri round %d", round);
+      app_work(&sink); std::memset(g_seen, 0, sizeof g_seen);
+      if (!mon::aborts([&] { Wd::invoke<int(Tri)>(sb, "take_tri", tr); })) judge("invoke-argument", "struct{char*;long long;long long}", { { 0, 4 }, { 8, 8 }, { 16, 8 } });
+      mon::ctx("by-value-struct/UNSAFE_sandboxed | Tri round %d", round);
+      app_work(&sink);
+      if (!mon::aborts([&] { auto img = tr.UNSAFE_sandboxed(sb); std::memcpy(g_seen, &img, sizeof img); g_seen_len = sizeof img; })) judge("UNSAFE_sandboxed", "struct{char*;long long;long long}", { { 0, 4 }, { 8, 8 }, { 16, 8 } });
     }
     mon::ctx("by-value-struct/invoke-argument | Pair round %d", round);
     app_work(&sink); std::memset(g_seen, 0, sizeof g_seen);
